@@ -7,10 +7,12 @@
 (*   MC_C12_hist   : every history up to MaxLen (no VIEW), exported at       *)
 (*                   terminal length; also used with -simulate.              *)
 EXTENDS Registry
-CONSTANTS MaxLen, ExportLen
+CONSTANTS MaxLen, ExportLen, ExplicitPrefixed
 
 Next == /\ Len(hist) < MaxLen
         /\ \/ \E s \in Syms, sc \in Scales, px \in BOOLEAN, d \in Dims : Add(s, sc, px, d)
+           \* a user symbol that is SPELLED like prefix + symbol (kfoo) defined in its own right
+           \/ (ExplicitPrefixed /\ \E s \in Keys \ Syms, sc \in Scales, d \in Dims : Add(s, sc, FALSE, d))
            \/ \E s \in Keys, sc \in Scales : Modify(s, sc)
            \/ \E s \in Syms, sc \in Scales, d \in Dims : ModifyQ(s, sc, d)
            \/ \E s \in Keys : Remove(s)
